@@ -8,9 +8,9 @@ CONSTANTS
   MaxNodes = 1
   MaxStack = 1
   BugOptionalDropsNone = FALSE
-  FixedStar = FALSE
-  FixedFinalInString = FALSE
-  FixedNestedLiteral = FALSE
+  FixedStar = TRUE
+  FixedFinalInString = TRUE
+  FixedNestedLiteral = TRUE
   AnnChoices = {"noann", "int", "str", "QA", "OptInt", "ListInt", "T"}
   DefaultChoices = {"none", "int:1", "None", "..."}
   RetChoices = {"noann", "int", "QA", "None", "T"}
